@@ -851,8 +851,9 @@ def value_attr(it, obj, attr):
         if attr == "size":
             return NRows(len(obj.v)) if obj.v else 0
         if attr == "is_monotonic_increasing":
-            if obj.exact and all(num(x) and not isinstance(x, bool) for x in obj.v):
-                return all(a <= b for a, b in zip(obj.v, obj.v[1:]))
+            if obj.exact and _lits(obj.v) is not None:
+                lv = _lits(obj.v)
+                return all(a <= b for a, b in zip(lv, lv[1:]))
             return Opaque("is_monotonic_increasing")
         if attr == "empty":
             return len(obj.v) == 0
@@ -911,6 +912,8 @@ def value_attr(it, obj, attr):
             return getattr(obj.node, "name", "<lambda>")
         if attr == "__doc__":
             return ast.get_docstring(obj.node) if not isinstance(obj.node, ast.Lambda) else None
+    if isinstance(obj, _TypeProxy) and obj.pytype is dict and attr == "fromkeys":
+        return lambda keys, value=None: dict.fromkeys(list(it.iterate(keys)), value)
     if isinstance(obj, _TypeProxy) and obj.pytype in (str, int, float) and callable(getattr(obj.pytype, attr, None)):
         # unbound method of a builtin type (str.isdigit, str.lower, ...): concrete receivers only
         def unbound(x, *a, _t=obj.pytype, _n=attr, **k):
@@ -1024,6 +1027,12 @@ def value_method(it, obj, name, args, kw):
     if obj is None:
         raise Raised("AttributeError", f"NoneType.{name}")
     if isinstance(obj, _TypeProxy):
+        try:
+            f = value_attr(it, obj, name)
+        except Undecided:
+            raise Undecided(f"{obj}.{name}")
+        if callable(f):
+            return f(*args, **kw)
         raise Undecided(f"{obj}.{name}")
     if hasattr(obj, name) and callable(getattr(obj, name)) and not isinstance(obj, (BoundMethod, Closure)):
         try:
@@ -1053,6 +1062,27 @@ def astype(x, ty):
     if ty in ("bool", bool):
         return _ai().truth(x)
     return x
+
+
+def _lits(vals):
+    """the values as plain numbers when every one is a literal number (constant Terms included), else None"""
+    out = []
+    for x in vals:
+        if isinstance(x, bool):
+            return None
+        if isinstance(x, Term) and x.is_const():
+            c = x.cval()
+            x = int(c) if c.denominator == 1 else c
+        if not num(x):
+            return None
+        out.append(x)
+    return out
+
+
+def _as_int_vec(obj):
+    r = Vec([int(x) for x in obj.v], fresh=obj.fresh, aligned=obj.aligned)
+    r.exact, r.labels = obj.exact, obj.labels
+    return r
 
 
 def vec_method(it, obj, name, args, kw):
@@ -1166,8 +1196,9 @@ def vec_method(it, obj, name, args, kw):
                 return getattr(x, name)(*args)
             raise Undecided(f".str.{name} on abstract value")
         return lift1(sm, obj)
-    if name == "diff" and not args and not kw and obj.exact and all(num(x) and not isinstance(x, bool) for x in obj.v):
-        r = Vec([None] + [b - a for a, b in zip(obj.v, obj.v[1:])], fresh=obj.fresh, aligned=obj.aligned)
+    if name == "diff" and not args and not kw and obj.exact and _lits(obj.v) is not None:
+        lv = _lits(obj.v)
+        r = Vec([None] + [b - a for a, b in zip(lv, lv[1:])], fresh=obj.fresh, aligned=obj.aligned)
         r.exact = True
         return r
     if name in ("apply", "map"):
@@ -1181,8 +1212,9 @@ def vec_method(it, obj, name, args, kw):
         if obj.labels is not None and len(obj.labels) == len(obj.v):
             return list(zip(obj.labels, obj.v))
         return list(enumerate(obj.v))
-    if name == "searchsorted" and obj.exact and all(num(x) and not isinstance(x, bool) for x in obj.v):
+    if name == "searchsorted" and obj.exact and _lits(obj.v) is not None:
         import bisect
+        obj = Vec(_lits(obj.v))
         if any(a > b for a, b in zip(obj.v, obj.v[1:])):
             raise Undecided("searchsorted on a literal column that is not sorted (numpy's result is then unspecified)")
         side = args[1] if len(args) > 1 else kw.get("side", "left")
@@ -1201,10 +1233,17 @@ def vec_method(it, obj, name, args, kw):
         if num(q) and not isinstance(q, bool):
             return f(obj.v, q)
         raise Undecided(f"searchsorted query {q!r}")
-    if name in ("cumsum", "cummax", "cummin") and obj.exact and all(num(x) and not isinstance(x, bool) for x in obj.v):
+    if name == "shift" and obj.exact and not kw and (not args or (isinstance(args[0], int) and not isinstance(args[0], bool) and args[0] >= 0)):
+        k = args[0] if args else 1
+        r = Vec(([None] * k + list(obj.v))[:len(obj.v)], fresh=obj.fresh, aligned=obj.aligned)
+        r.exact, r.labels = True, obj.labels
+        return r
+    if name in ("cumsum", "cummax", "cummin") and obj.exact and obj.v and all(isinstance(x, bool) for x in obj.v):
+        return vec_method(it, _as_int_vec(obj), name, args, kw)
+    if name in ("cumsum", "cummax", "cummin") and obj.exact and _lits(obj.v) is not None:
         # a literal column of plain numbers: the running aggregate is computed
         out, acc = [], None
-        for x in obj.v:
+        for x in _lits(obj.v):
             acc = x if acc is None else {"cumsum": acc + x, "cummax": max(acc, x), "cummin": min(acc, x)}[name]
             out.append(acc)
         r = Vec(out, fresh=obj.fresh, aligned=obj.aligned)
@@ -1509,6 +1548,8 @@ def ext_call(it, dotted, args, kw):
                 return IndexVals(len(items))                # labels not literal: an index of unknown labels
             labels.append(x)
         return IndexVals(len(items), labels)
+    if name in ("np.all", "np.any") and len(args) == 1 and not kw and isinstance(args[0], Vec):
+        return vec_method(it, args[0], name[3:], [], {})
     if name == "np.where" and len(args) == 1 and isinstance(args[0], Vec) and all(isinstance(x, bool) for x in args[0].v):
         r = Vec([i for i, x in enumerate(args[0].v) if x])
         r.exact = True
@@ -1525,7 +1566,9 @@ def ext_call(it, dotted, args, kw):
         c = args[0]
         if isinstance(c, Vec):
             n = len(c.v)
-            return Vec(a if m is True else b for m, a, b in zip(c.v, bcast(args[1], n), bcast(args[2], n)))
+            r = Vec(a if m is True else b for m, a, b in zip(c.v, bcast(args[1], n), bcast(args[2], n)))
+            r.exact = c.exact and all(x.exact for x in args[1:] if isinstance(x, Vec))
+            return r
         return args[1] if ai.truth(c) else args[2]
     if name in ("np.asarray", "np.array", "np.asfarray", "pd.Series", "np.atleast_1d"):
         a0 = args[0] if args else kw.get("data")
@@ -1680,6 +1723,9 @@ def ext_call(it, dotted, args, kw):
         for a in args:
             out.extend(it.iterate(a))
         return out
+    if name == "np.searchsorted" and len(args) >= 2 and isinstance(args[0], (list, tuple)) and not isinstance(args[1], (Vec, list, tuple)) and set(kw) <= {"side"}:
+        side = args[2] if len(args) > 2 else kw.get("side", "left")
+        return ext_call(it, "bisect.bisect_left" if side == "left" else "bisect.bisect_right", [args[0], args[1]], {})
     if name in ("bisect.bisect", "bisect.bisect_right", "bisect.bisect_left") and len(args) == 2 and not kw:
         # position in a sorted list, by the interpreter's own comparisons (so order values and symbols decide through their atoms)
         seq = list(it.iterate(args[0]))
